@@ -2,7 +2,7 @@
 """Behaviour-preserving whole-repository rewrites, to look for false alarms.
 
 usage: tools/benign_stress.py <transform> [Cxx ...]
-  transforms: unparse | pass | flip_if | aug | swap_cmp | demorgan | rename | all
+  transforms: unparse | pass | flip_if | aug | swap_cmp | demorgan | rename | strip_ann | interleave | logcalls | all
 
 A scratch copy of /repo (without .git) is rewritten under $TMPDIR, every check is run against it
 (SA_REPO), and any VIOLATION / ANALYSIS-ERROR is printed.  The scratch copy is removed afterwards.
@@ -129,7 +129,83 @@ class RenameLocals(ast.NodeTransformer):
     visit_AsyncFunctionDef = _f
 
 
-TRANSFORMS = {'unparse': None, 'rename': RenameLocals, 'pass': Pass, 'flip_if': FlipIf, 'aug': Aug, 'swap_cmp': SwapCmp, 'demorgan': DeMorgan}
+class StripAnn(ast.NodeTransformer):
+    """x: T = e -> x = e inside functions (and parameter / return annotations removed)"""
+
+    def __init__(self):
+        self.depth = 0
+
+    def _f(self, node):
+        self.depth += 1
+        self.generic_visit(node)
+        self.depth -= 1
+        return node
+    visit_FunctionDef = _f
+    visit_AsyncFunctionDef = _f
+
+    def visit_ClassDef(self, node):
+        d, self.depth = self.depth, 0
+        self.generic_visit(node)
+        self.depth = d
+        return node
+
+    def visit_AnnAssign(self, node):
+        self.generic_visit(node)
+        if self.depth and node.value is not None:
+            return ast.copy_location(ast.Assign(targets=[node.target], value=node.value), node)
+        return node
+
+
+class Interleave(ast.NodeTransformer):
+    """a `pass` between any two statements of every block inside functions (as an added log line would sit)"""
+
+    def __init__(self):
+        self.depth = 0
+
+    def _f(self, node):
+        self.depth += 1
+        self.generic_visit(node)
+        self.depth -= 1
+        return node
+    visit_FunctionDef = _f
+    visit_AsyncFunctionDef = _f
+
+    def visit_ClassDef(self, node):
+        d, self.depth = self.depth, 0
+        self.generic_visit(node)
+        self.depth = d
+        return node
+
+    def generic_visit(self, node):
+        super().generic_visit(node)
+        if self.depth and not isinstance(node, ast.ClassDef):
+            for fld in ('body', 'orelse', 'finalbody'):
+                blk = getattr(node, fld, None)
+                if isinstance(blk, list) and len(blk) > 1 and all(isinstance(x, ast.stmt) for x in blk):
+                    out = []
+                    for i, st in enumerate(blk):
+                        if i and not (i == 1 and isinstance(blk[0], ast.Expr) and isinstance(blk[0].value, ast.Constant)):
+                            out.append(ast.Pass())
+                        out.append(st)
+                    setattr(node, fld, out)
+        return node
+
+
+class LogCalls(Interleave):
+    """like interleave, with `logger.debug('trace')` instead of pass (modules that define `logger`)"""
+
+    def generic_visit(self, node):
+        super().generic_visit(node)
+        for fld in ('body', 'orelse', 'finalbody'):
+            blk = getattr(node, fld, None)
+            if isinstance(blk, list):
+                for i, st in enumerate(blk):
+                    if isinstance(st, ast.Pass) and len(blk) > 1:
+                        blk[i] = ast.Expr(value=ast.Call(func=ast.Attribute(value=ast.Name(id='logger', ctx=ast.Load()), attr='debug', ctx=ast.Load()), args=[ast.Constant('trace')], keywords=[]))
+        return node
+
+
+TRANSFORMS = {'unparse': None, 'interleave': Interleave, 'logcalls': LogCalls, 'rename': RenameLocals, 'strip_ann': StripAnn, 'pass': Pass, 'flip_if': FlipIf, 'aug': Aug, 'swap_cmp': SwapCmp, 'demorgan': DeMorgan}
 
 
 def run(name, props):
